@@ -188,6 +188,8 @@ def rec_bec2_read(rec, text, decs, ecc_privs, oracle, check=True, auth=None, **e
         ev["ecckeys"] = []
     try:
         form = rec.tid % 5
+        if rec.tid % 3 == 1:
+            check = int(bool(check))                            # an equal value of another type (1 / 0): same behaviour
         if form == 1:
             with tempfile.TemporaryDirectory(prefix="verif_b2r_") as td:
                 pth = os.path.join(td, "r.bec2")
